@@ -290,7 +290,11 @@ impl EventGen for GroupElement {
         let mut new_el = self.0.clone();
         new_el.content_bbox = content_bb;
         context.update_element(&new_el);
-        context.set_prev_element(&new_el);
+        if content_bb.is_some() {
+            // as for other elements, a group without a bounding box is not a
+            // target for `^`; the previous positioned element stays in place
+            context.set_prev_element(&new_el);
+        }
 
         let result_bb = if self.0.name == "symbol" {
             // symbols have a size which needs storing in context for evaluating
